@@ -24,12 +24,12 @@ def chans (v : VT) : List Nat := List.range v.nch
 def joinC (xs : List Int) : String := ",".intercalate (xs.map toString)
 
 /-- result channel value printed by the harness for an exact accumulator -/
-def castQ (v : VT) (q : Rat) : Int := if v.isF then truncQ (q * 256) else truncQ q
+def castQ (v : VT) (q : Rat) : Int := if v.isF then truncQ (q * 256) else roundQ q
 def showSrc (v : VT) (x : Int) : Int := if v.isF then x * 256 else x
 
 /-- result channel value for a double accumulator -/
 def castF (v : VT) (a : Float) : Int :=
-  if v.isF then f2i (Float.round (a.toFloat32.toFloat * 256.0)) else f2i a
+  if v.isF then f2i (Float.round (a.toFloat32.toFloat * 256.0)) else castRoundF a
 
 def pointTokenQ (v : VT) (bil : Bool) (w h nx ny D : Int) : String :=
   if bil then
@@ -48,7 +48,7 @@ def tapToken (bil : Bool) (w h nx ny D : Int) : String :=
   let g8 : VT := ⟨1, 0, false⟩
   if bil then
     match bilinearQ w h (g8.src 0) nx ny D with
-    | some (taps, acc) => ",".intercalate (taps.map (fun t => toString t.x ++ ":" ++ toString t.y)) ++ "=" ++ toString (truncQ acc)
+    | some (taps, acc) => ",".intercalate (taps.map (fun t => toString t.x ++ ":" ++ toString t.y)) ++ "=" ++ toString (roundQ acc)
     | none => "o"
   else
     match nearestQ w h nx ny D with
@@ -105,11 +105,11 @@ def model (line : String) : String :=
       let one (bx byy : Nat) : String :=
         if F == "f" then
           match bilinearF32 w h src (Float32.ofBits bx.toUInt32) (Float32.ofBits byy.toUInt32) with
-          | some a => joinC ((chans t).map (fun _ => f2i32 a))
+          | some a => joinC ((chans t).map (fun _ => castRoundF32 a))
           | none => "o"
         else
           match bilinearF w h src (Float.ofBits bx.toUInt64) (Float.ofBits byy.toUInt64) with
-          | some a => joinC ((chans t).map (fun _ => f2i a))
+          | some a => joinC ((chans t).map (fun _ => castRoundF a))
           | none => "o"
       let rec go : List Nat → List String
         | a :: b :: r => one a b :: go r
